@@ -3,11 +3,11 @@ package cli
 
 import (
 	"bytes"
-	"context"
 	"fmt"
 	"os"
 	"os/exec"
 	"path/filepath"
+	"strconv"
 	"strings"
 	"sync/atomic"
 	"time"
@@ -56,8 +56,6 @@ func RunNoStdin(dir string, args ...string) Result {
 }
 
 func run(dir string, stdin *string, args ...string) Result {
-	ctx, cancel := context.WithTimeout(context.Background(), 60*time.Second)
-	defer cancel()
 	// an older, longer result is in the way of every output file named on the command line: it
 	// must be replaced, not overwritten in place or appended to (files that the caller has put
 	// there itself are left alone)
@@ -73,7 +71,7 @@ func run(dir string, stdin *string, args ...string) Result {
 			}
 		}
 	}
-	cmd := exec.CommandContext(ctx, Bin(), args...)
+	cmd := exec.Command(Bin(), args...)
 	cmd.Dir = dir
 	// the environment of an interactive session: a narrow terminal, a locale with a decimal comma,
 	// another time zone, colour preferences - what a command does is described by its help text and
@@ -85,9 +83,9 @@ func run(dir string, stdin *string, args ...string) Result {
 	}
 	var so, se bytes.Buffer
 	cmd.Stdout, cmd.Stderr = &so, &se
-	err := cmd.Run()
+	err, finished := runWatched(cmd)
 	r := Result{Stdout: so.String(), Stderr: se.String()}
-	if ctx.Err() != nil {
+	if !finished {
 		r.TimedOut = true
 		r.Code = -1
 		return r
@@ -101,6 +99,60 @@ func run(dir string, stdin *string, args ...string) Result {
 		}
 	}
 	return r
+}
+
+// commandPeriod is the time a command is given. As for the in-process watchdog (h.guarded), it is
+// not a plain wall-clock limit - on a machine shared with other campaigns a command that needs
+// 20 ms of processor time may wait seconds for it, and a time budget hit is never a violation:
+// after the period the command is stopped and reported as not finishing only when it has itself
+// consumed 80 % of the period in processor time (/proc/<pid>/stat: a loop that does not end), or
+// when six periods of wall time have passed (a command waiting for something that never comes).
+var commandPeriod = 60 * time.Second
+
+func runWatched(cmd *exec.Cmd) (err error, finished bool) {
+	if err := cmd.Start(); err != nil {
+		return err, true
+	}
+	done := make(chan error, 1)
+	go func() { done <- cmd.Wait() }()
+	start := time.Now()
+	tick := time.NewTicker(250 * time.Millisecond)
+	defer tick.Stop()
+	for {
+		select {
+		case err = <-done:
+			return err, true
+		case <-tick.C:
+			wall := time.Since(start)
+			if wall < commandPeriod {
+				continue
+			}
+			if processCPU(cmd.Process.Pid) >= commandPeriod*8/10 || wall >= 6*commandPeriod {
+				cmd.Process.Kill()
+				<-done
+				return nil, false
+			}
+		}
+	}
+}
+
+// processCPU is the processor time (user + system, all threads) consumed so far by a live process.
+func processCPU(pid int) time.Duration {
+	b, err := os.ReadFile(fmt.Sprintf("/proc/%d/stat", pid))
+	if err != nil {
+		return 0
+	}
+	t := string(b)
+	if i := strings.LastIndex(t, ")"); i >= 0 { // the command name may hold blanks
+		t = t[i+1:]
+	}
+	f := strings.Fields(t) // f[0] is the state (field 3); utime and stime are fields 14 and 15
+	if len(f) < 13 {
+		return 0
+	}
+	ut, _ := strconv.ParseInt(f[11], 10, 64)
+	st, _ := strconv.ParseInt(f[12], 10, 64)
+	return time.Duration(ut+st) * (time.Second / 100) // USER_HZ is 100 on Linux
 }
 
 // Write creates a file in dir and returns its name (relative to dir).
